@@ -587,6 +587,7 @@ def transition_worker(job):
     base_reported = []
     n = 0
     INF = float("inf")
+    narrowing_reported = []
     for kind in KINDS:
         # the loss value 0 (falsy, and the boundary of the non-negative losses) is a representative of its own: a
         # truthiness test or a sign test in stop() separates it from the positive losses
@@ -612,7 +613,11 @@ def transition_worker(job):
                             lv = _mk(kind, loss)
                             other = _mk(kind, 3)  # the non-monitored loss is much better: monitoring it is visible
                             args = ["model@now", 4, lv, other, 0.5] if monitor_index == 2 else ["model@now", 4, other, lv, 0.5]
+                            del A.NARROWED[:]
                             res = attempt(lambda: obj.stop(*args))
+                            if A.NARROWED and kind == "NumPyFloat64" and not narrowing_reported:
+                                narrowing_reported.append(1)
+                                problems.append(("narrowing", "stop() turns the np.float64 loss into a JAX array before comparing it (jnp.asarray / jnp.array: float32 unless jax_enable_x64): improvements smaller than float32 resolution become ties and losses above 3.4e38 become inf, so the condition stops early on double-precision histories that the statement covers (float(loss) keeps the value)", dict(kind=kind, patience=patience, min_delta=delta)))
                             cfgd = dict(kind=kind, best=str(best), loss=loss, min_delta=delta, counter=counter, patience=patience, verbose=verbose)
                             if isinstance(res, Rejected):
                                 problems.append(("rejected", "stop() raised for a %s loss: %s" % (kind, res.exc), cfgd))
